@@ -198,4 +198,39 @@ theorem uniqueProg_typed (L : Nat) (eq : List α → List α → Bool) (n : Nat)
   · exact .ret _
   · exact uniqueFind_typed L eq _ _
 
+theorem andThen_typed (L : Nat) (p k : Prog (List α)) (hp : p.Typed L) (hk : k.Typed L) : (p.andThen k).Typed L := by
+  induction hp with
+  | ret pos => exact hk
+  | read i f _ ih => exact .read _ _ (fun x hx => ih x hx)
+  | write i x p hx _ ih => exact .write _ _ _ hx ih
+  | assign i j p _ ih => exact .assign _ _ _ ih
+  | swap i j p _ ih => exact .swap _ _ _ ih
+
+theorem linInsert_typed (L : Nat) (lt : List α → List α → Bool) (val : List α) (hv : val.length = L) (k : Prog (List α))
+    (hk : k.Typed L) (f : Nat) (j : Int) : (linInsert lt val k f j).Typed L := by
+  induction f generalizing j with
+  | zero => exact .read _ _ (fun _ _ => .ret _)
+  | succ f ih =>
+    rw [linInsert]
+    refine .read _ _ (fun nx _ => ?_)
+    split
+    · exact .assign _ _ _ (ih _)
+    · exact .write _ _ _ hv hk
+
+theorem insSortLoop_typed (L : Nat) (lt : List α → List α → Bool) (n : Nat) (i : Int) : (insSortLoop lt n i).Typed L := by
+  induction n generalizing i with
+  | zero => exact .ret _
+  | succ n ih =>
+    rw [insSortLoop]
+    refine .read _ _ (fun x hx => .read _ _ (fun f0 _ => ?_))
+    split
+    · exact andThen_typed L _ _ (copyBackwardProg_typed _ _ _ _) (.write _ _ _ hx (ih _))
+    · exact linInsert_typed L lt x hx _ (ih _) _ _
+
+theorem insertionSortProg_typed (L : Nat) (lt : List α → List α → Bool) (n : Nat) : (insertionSortProg lt n).Typed L := by
+  unfold insertionSortProg
+  split
+  · exact .ret _
+  · exact insSortLoop_typed L lt _ _
+
 end Multi
